@@ -15,7 +15,7 @@ _sp = importlib.util.spec_from_file_location("qv_spec_c15_for_c01", Path(__file_
 _c15 = importlib.util.module_from_spec(_sp)
 _sp.loader.exec_module(_c15)
 
-_WANTED = ["DWV_values", "DWV_n_qubits", "DWV_z_dash_term", "DWV_viability_term", "DWV_value_term", "Enc_init", "Enc_makespan_term", "Enc_precedence_term", "Enc_overlap_term", "Enc_early_start_term", "Enc_ham_pads_and_opt", "Enc_ham_weighted_sum", "Enc_ham_viability_terms", "Enc_ham_precedence_terms"]
+_WANTED = ["DWV_values", "DWV_n_qubits", "DWV_z_dash_term", "DWV_viability_term", "DWV_value_term", "Enc_init", "Enc_makespan_term", "Enc_precedence_term", "Enc_overlap_term", "Enc_early_start_term", "Enc_ham_pads_and_opt", "Enc_ham_weighted_sum", "Enc_ham_viability_terms", "Enc_ham_precedence_terms", "Enc_ham_overlap_terms"]
 
 SPEC = dict(_c15.SPEC)
 SPEC.update(
